@@ -6,7 +6,8 @@ references (creator's, explicit ones, the thread's own while it has not ended) a
 operation that drops the last one; `join` yields the code given to `exit` (0 for a plain return, −1
 for a handle that is not joinable); a TLS key is an independent cell per (thread, key); the
 notifier runs for the non-NULL value overwritten by `replace`, for every non-NULL value left at
-thread end, and never otherwise.
+thread end under a key that still exists, and never otherwise; `p_uthread_local_free` releases a key together
+with whatever is still stored under it (those values are dropped, not passed to the notifier).
 
 This is the `S` column of the differential run (DESIGN §2.4); it is written independently of
 `PV.Model.UThread` (association lists instead of the model's state).
@@ -27,6 +28,7 @@ structure S where
   nThreads : Nat := 1
   keys : List Bool := [true]                -- by key id: has a notifier (key 0 is the library's, never visible)
   cells : List ((Nat × Nat) × Nat) := []    -- (thread, key) ↦ value
+  freedKeys : List Nat := []                -- keys released with `p_uthread_local_free`
 
 structure Out where
   freed : List Nat := []                    -- handles released by this operation
@@ -89,7 +91,7 @@ def sortD (l : List (Nat × Nat × Nat)) : List (Nat × Nat × Nat) := l.foldr i
     reference to its handle disappears -/
 def threadEnd (s : S) (t : Nat) : S × Out :=
   let owed := (List.range s.keys.length).filterMap fun k =>
-    if k ≠ 0 ∧ s.keys[k]?.getD false ∧ s.cell t k ≠ 0 then some (t, k, s.cell t k) else none
+    if k ≠ 0 ∧ k ∉ s.freedKeys ∧ s.keys[k]?.getD false ∧ s.cell t k ≠ 0 then some (t, k, s.cell t k) else none
   let s1 := { s with cells := s.cells.filter fun c => ¬ (c.1.1 = t ∧ (s.keys[c.1.2]?.getD false)) }
   match lookup s1.threadHandle t with
   | some h =>
@@ -98,6 +100,9 @@ def threadEnd (s : S) (t : Nat) : S × Out :=
   | none => (s1, { dtor := sortD owed })
 
 def keyNew (s : S) (n : Bool) : S × Nat := ({ s with keys := s.keys ++ [n] }, s.keys.length)
+
+/-- the key is gone together with every value still stored under it -/
+def keyFree (s : S) (k : Nat) : S := { s with freedKeys := k :: s.freedKeys, cells := s.cells.filter fun c => c.1.2 ≠ k }
 
 def setLocal (s : S) (t k v : Nat) : S := { s with cells := store s.cells (t, k) v }
 
